@@ -76,6 +76,8 @@ FaultAt(r) ==
          IF f.kind = "semi" /\ x >= N(r) THEN 0 - 1
          \* the same character comes next: it takes the place of the omitted one
          ELSE IF x < N(r) /\ r.cs[x + 1] = FaultChar(f.kind) THEN 0 - 1
+         \* a "(" after a name expression that may end in a macro call is that call's argument list
+         ELSE IF f.kind = "assign" /\ x < N(r) /\ r.cs[x + 1] = "(" THEN 0 - 1
          ELSE x
     [] OTHER -> 0 - 1
 C14_applicable(r) == FaultAt(r) >= 0
